@@ -75,19 +75,28 @@ Print Assumptions C02_refusal.
 
 (* FULL STATEMENT (every class that cannot store the required scaling refuses) is false of
    the faithful model for the `direct` class (MGH calls array_to_file without a writer):
-   finding S-C02b; and the plain writer lets +-inf through when all finite data are 0:
-   finding S-C02d. *)
+   finding S-C02b. *)
 Theorem C02_refusal_direct_refuted :
   exists o, image_write caps_mgh (InF K32 [S754_finite false 16000000 (-4)]) ity_int16 = Ok (scaling_default, o)
             /\ o_raw o = [32767].
 Proof. exact mgh_clips_witness. Qed.
 Print Assumptions C02_refusal_direct_refuted.
 
-Theorem C02_plain_inf_refuted :
-  exists o, image_write caps_analyze (InF K32 [S754_zero false; S754_infinity false]) ity_uint8 = Ok (scaling_default, o)
-            /\ o_raw o = [0; 255].
-Proof. exact plain_inf_witness. Qed.
-Print Assumptions C02_plain_inf_refuted.
+(* the plain writer (classes without scaling fields: Analyze) and float data: FULL STATEMENT, holds
+   since fix b5843164 (former finding S-C02d, refuted before the repair): it writes float data to
+   an integer type only when every finite value is zero and there is no infinity (NaN -> 0);
+   everything else is a WriterError.  In particular [0, +inf] as uint8 is refused. *)
+Theorem C02_plain_float_refusal : forall k xs tout sc o,
+  writer_write WPlain (InF k xs) tout = Ok (sc, o) ->
+  sc = scaling_default /\ existsb is_inf_sf xs = false
+  /\ (let v := view (InF k xs) in num_eq (d_mn v) (NI 0) && num_eq (d_mx v) (NI 0)) = true.
+Proof. exact plain_float_accepts. Qed.
+Print Assumptions C02_plain_float_refusal.
+
+Theorem C02_plain_inf_refused :
+  image_write caps_analyze (InF K32 [S754_zero false; S754_infinity false]) ity_uint8 = Err EWriterError.
+Proof. exact plain_inf_refused. Qed.
+Print Assumptions C02_plain_inf_refused.
 
 (* the Flocq format constants of the float layer are the formats the running NumPy reports *)
 Theorem C02_tables_match : tables_matchb = true.
